@@ -14,11 +14,11 @@
 (***************************************************************************)
 EXTENDS Histogram, Json
 
-VARIABLES l, nanPending
+VARIABLES l, nanPending, pv   \* pv: the bucket pairs of the current specification as <<lo, hi>> tuples, computed once per histogram
 
 TraceLog == ndJsonDeserialize("trace.ndjson")
 
-tvars == <<vars, l, nanPending>>
+tvars == <<vars, l, nanPending, pv>>
 
 Fail(clause) == PrintT(<<"FAIL", l, clause>>)
 
@@ -27,7 +27,7 @@ SumSeq(s) == IF s = <<>> THEN 0 ELSE Head(s) + SumSeq(Tail(s))
 
 PairsAsTuples(sp) == [i \in 1..Len(Pairs(sp)) |-> <<Pairs(sp)[i].lo, Pairs(sp)[i].hi>>]
 
-TInit == /\ l = 1 /\ nanPending = 0
+TInit == /\ l = 1 /\ nanPending = 0 /\ pv = PairsAsTuples(<<>>)
          /\ spec = <<>> /\ kind = "value"
          /\ counts = [i \in 0..(MaxSpecLen + 1) |-> 0]
          /\ prevc = [i \in 0..(MaxSpecLen + 1) |-> 0]
@@ -37,7 +37,7 @@ TInit == /\ l = 1 /\ nanPending = 0
 
 TNew(r) ==
   /\ r.e = "new"
-  /\ spec' = r.spec /\ kind' = r.kind
+  /\ spec' = r.spec /\ kind' = r.kind /\ pv' = PairsAsTuples(r.spec)
   /\ counts' = [i \in 0..(MaxSpecLen + 1) |-> 0]
   /\ prevc' = [i \in 0..(MaxSpecLen + 1) |-> 0]
   /\ recorded' = 0 /\ nanRecorded' = 0 /\ nanPending' = 0
@@ -49,34 +49,37 @@ TNew(r) ==
 TRec(r) ==
   /\ r.e = "rec"
   /\ IF r.panic
-     THEN /\ Fail("NoPanic") /\ UNCHANGED <<vars, nanPending>>
+     THEN /\ Fail("NoPanic") /\ UNCHANGED <<vars, nanPending, pv>>
      ELSE IF r.v = NAN /\ r.k = kind
-          THEN /\ nanPending' = nanPending + 1 /\ UNCHANGED vars   \* property: at most one bucket, any
-          ELSE /\ Record(r.k, r.v) /\ UNCHANGED nanPending
+          THEN /\ nanPending' = nanPending + 1 /\ UNCHANGED <<vars, pv>>   \* property: at most one bucket, any
+          ELSE /\ Record(r.k, r.v) /\ UNCHANGED <<nanPending, pv>>
 
-(* the snapshot of a test scope is keyed by upper bound only: its deltas are logged as <<hi, hi, n>> *)
-KeyOf(path, i) == IF path = "snap" THEN <<Pairs(spec)[i].hi, Pairs(spec)[i].hi>> ELSE PairsAsTuples(spec)[i]
-ModelDelta(path, p) == SumSeq([i \in 1..NB |-> IF KeyOf(path, i) = p THEN counts[i - 1] - prevc[i - 1] ELSE 0])
+(* the snapshot of a test scope is keyed by upper bound only: its deltas are logged as <<hi, hi, n>>.
+   Only the buckets with a pending model delta and the logged ones are compared (specifications have up to 66 bounds). *)
+KeyOf(path, i) == IF path = "snap" THEN <<pv[i][2], pv[i][2]>> ELSE pv[i]
+NBv == Len(pv)
+ModelDelta(path, p) == SumSeq([i \in 1..NBv |-> IF KeyOf(path, i) = p THEN counts[i - 1] - prevc[i - 1] ELSE 0])
 LoggedDelta(r, p) == SumSeq([j \in 1..Len(r.out) |-> IF <<r.out[j][1], r.out[j][2]>> = p THEN r.out[j][3] ELSE 0])
 
 TRep(r) ==
   /\ r.e = "rep"
-  /\ LET known == {KeyOf(r.path, i) : i \in 1..NB}
-         ps == known \cup {<<r.out[j][1], r.out[j][2]>> : j \in 1..Len(r.out)}
+  /\ LET known == {KeyOf(r.path, i) : i \in 1..NBv}
+         active == {KeyOf(r.path, i) : i \in {k \in 1..NBv : counts[k - 1] # prevc[k - 1]}}
+         ps == active \cup {<<r.out[j][1], r.out[j][2]>> : j \in 1..Len(r.out)}
          totalLogged == SumSeq([j \in 1..Len(r.out) |-> r.out[j][3]])
-         totalModel == SumSeq([i \in 1..NB |-> counts[i - 1] - prevc[i - 1]])
+         totalModel == SumSeq([i \in 1..NBv |-> counts[i - 1] - prevc[i - 1]])
      IN /\ IF \E p \in ps : LoggedDelta(r, p) < ModelDelta(r.path, p) THEN Fail("SampleLostOrWrongBucket")
            ELSE IF totalLogged - totalModel > nanPending THEN Fail("SampleInventedOrWrongBucket")
            ELSE IF \E j \in 1..Len(r.out) : r.out[j][3] <= 0 THEN Fail("NonPositiveBucketDelivery")
            ELSE IF \E j \in 1..Len(r.out) : <<r.out[j][1], r.out[j][2]>> \notin known THEN Fail("UnknownBucket")
            ELSE TRUE
   /\ Report
-  /\ nanPending' = 0
+  /\ nanPending' = 0 /\ UNCHANGED pv
 
 (* one unsorted specification shared by several roots that create their histograms at the same time: every
    histogram's bounds are the sorted specification, the caller's slice is as it was *)
 TShared(r) ==
-  /\ r.e = "shared" /\ UNCHANGED <<vars, nanPending>>
+  /\ r.e = "shared" /\ UNCHANGED <<vars, nanPending, pv>>
   /\ IF ~r.bounds_ok THEN Fail("Tiling:specification-shared-by-concurrent-creators")
      ELSE IF ~r.counts_ok THEN Fail("SampleLostOrWrongBucket:specification-shared-by-concurrent-creators") ELSE TRUE
 
